@@ -38,6 +38,10 @@ class Stop(Exception):
     pass
 
 
+class RegFault(Exception):
+    """Raised on purpose by a registered action of the workload."""
+
+
 class Runner:
     def __init__(self, acc, rng, case, label):
         self.acc, self.rng, self.case, self.label = acc, rng, case, label
@@ -52,6 +56,10 @@ class Runner:
         # must not run afterwards - all registries re-check the live registry
         # ("May be removed by a previous action").  Added during a run: open.
         self.strict_removed = True
+        self.faults = {}          # key -> call numbers on which the action raises
+        self.ncalls = {}
+        self.raised = False
+        self.spent_once = set()
         self.seq = 0
         self.feat = {'runs': 0, 'removes': 0, 'remove_then_run': False,
                      'max_actions': 0, 'in_run_ops': 0}
@@ -60,6 +68,27 @@ class Runner:
     def tick(self):
         self.seq += 1
         return self.seq
+
+    def maybe_fault(self, key):
+        if self.rng.random() < 0.15:
+            self.faults[key] = self.rng.choice([{1}, {1}, {2}, {1, 2}, set(range(1, 50))])
+            self.log.append(['faulty', repr(key), sorted(self.faults[key])[:3]])
+
+    def after_call(self, key):
+        n = self.ncalls[key] = self.ncalls.get(key, 0) + 1
+        if n in self.faults.get(key, ()):
+            self.raised = True
+            self.acc.count('registry_injected_faults')
+            raise RegFault(f'injected fault in action {key!r}, call {n}')
+
+    def run_library(self, fn):
+        """run()/notify() of the library; an injected fault may propagate to
+        the caller (the statement does not say), anything else may not."""
+        self.raised = False
+        try:
+            fn()
+        except RegFault:
+            self.acc.count('registry_faults_propagated_to_caller')
 
     def violation(self, what, **w):
         w.update({'case': self.case, 'registry': self.label, 'history': self.log[-40:]})
@@ -102,12 +131,19 @@ class Runner:
             if key in self.touched:
                 acc.count('registry_open/touched-during-run')
                 continue
+            if key not in expected and key in self.spent_once:
+                self.violation('one-shot-ran-again', key=repr(key),
+                               calls=[repr(k) for k, _ in self.calls])
             if key not in expected:
                 self.violation('ran-removed-or-unregistered-action', key=repr(key),
                                calls=[repr(k) for k, _ in self.calls])
             if c > 1:
                 self.violation('ran-twice', key=repr(key))
         for key in expected:
+            if key not in counts and key not in self.touched and self.raised:
+                # the run was abandoned at a raising action
+                acc.count('registry_open/after-raising-action')
+                continue
             if key not in counts and key not in self.touched:
                 self.violation('skipped-registered-action', key=repr(key),
                                calls=[repr(k) for k, _ in self.calls])
@@ -153,6 +189,7 @@ def run_system(acc, rng, case, base, label, with_once):
                 R.feat['in_run_ops'] += 1
                 acc.count('registry_in_run_ops')
                 apply(op, inside=True)
+            R.after_call(aid)
         action.__name__ = f'a{aid}'
         return action
 
@@ -164,6 +201,8 @@ def run_system(acc, rng, case, base, label, with_once):
             _, aid, args, kwargs = op
             f = funcs.setdefault(aid, make(aid))
             cls.add(f, *args, **kwargs)
+            if aid not in B.entries and not inside:
+                R.maybe_fault(aid)
             B.add(aid, R.tick(), args=tuple(args), kwargs=dict(kwargs), once=False)
             if inside:
                 R.touched.add(aid)
@@ -172,6 +211,7 @@ def run_system(acc, rng, case, base, label, with_once):
             _, aid, args, kwargs = op
             f = funcs.setdefault(aid, make(aid))
             cls.do_once(f, *args, **kwargs)
+            R.maybe_fault(aid)
             B.add(aid, R.tick(), args=tuple(args), kwargs=dict(kwargs), once=True)
         elif name == 'remove':
             was = op[1] in B.entries
@@ -200,11 +240,12 @@ def run_system(acc, rng, case, base, label, with_once):
         R.log.append(['run'])
         R.calls.clear(); R.touched.clear(); R.removed_at.clear(); R.readded.clear()
         expected = dict(B.entries)
-        cls.run()
+        R.run_library(cls.run)
         R.compare(expected, lambda k: B, check_args)
         for k, e in list(B.entries.items()):
             if e.get('once') and any(c[0] == k for c in R.calls):
                 B.remove(k)
+                R.spent_once.add(k)
 
     once_aids = set()
     try:
@@ -289,6 +330,7 @@ def run_server(acc, rng, case):
                 R.feat['in_run_ops'] += 1
                 acc.count('registry_in_run_ops')
                 apply(op, inside=True)
+            R.after_call(key)
         return action
 
     def apply(op, inside=False):
@@ -298,6 +340,8 @@ def run_server(acc, rng, case):
         if name == 'add':
             _, b, n, args, kwargs = op
             key = (bk(b), n)
+            if key not in funcs and not inside:
+                R.maybe_fault(key)
             f = funcs.setdefault(key, make(key))
             cls.add(b, f, *args, **kwargs)
             buckets.setdefault(bk(b), Bucket()).add(
@@ -352,7 +396,7 @@ def run_server(acc, rng, case):
                 return f'server argument {s!r} is not {server!r}'
             if tuple(a) != ent['args'] or dict(k) != ent['kwargs']:
                 return f'got {a!r} {k!r} expected {ent["args"]!r} {ent["kwargs"]!r}'
-        cls.run(server)
+        R.run_library(lambda: cls.run(server))
         R.compare(expected, lambda key: buckets.get(key[0]), check_args)
 
     try:
@@ -432,6 +476,7 @@ def run_notify(acc, rng, case):
                 R.feat['in_run_ops'] += 1
                 acc.count('registry_in_run_ops')
                 apply(op, inside=True)
+            R.after_call((id(obj), msg, id(listener)))
         return act3
 
     def apply(op, inside=False):
@@ -442,6 +487,10 @@ def run_notify(acc, rng, case):
             _, o, m, l = op
             aid = aid_counter[0]; aid_counter[0] += 1
             getattr(NC, name)(o, m, l, make(aid, 3))
+            if not inside:
+                R.faults.pop((id(o), m, id(l)), None)
+                R.ncalls.pop((id(o), m, id(l)), None)
+                R.maybe_fault((id(o), m, id(l)))
             regs.setdefault((id(o), m), Bucket()).add(
                 (id(o), m, id(l)), R.tick(), aid=aid, once=(name == 'register_one_shot'))
             if inside:
@@ -452,11 +501,10 @@ def run_notify(acc, rng, case):
                 b = regs.get((id(o), m))
                 if l is not None:
                     e = b.entries.get((id(o), m, id(l))) if b else None
-                    if e is None or e['once']:
-                        return                 # no longer applicable
-                elif b is None or any(e['once'] for e in b.entries.values()):
-                    # (a one-shot listener unregisters itself after its action:
-                    # taking it away underneath is outside the generated domain)
+                    if e is None or not NC.registration_exists(o, m, l):
+                        return    # no longer applicable (e.g. a one-shot that ran)
+                elif b is None or not any(NC.registration_exists(o, m, by_id[k[2]])
+                                          for k in b.entries):
                     return
             if inside and l is None:
                 for k in regs[(id(o), m)].entries:
@@ -488,12 +536,17 @@ def run_notify(acc, rng, case):
                 return f'action {aid} ran, registered action is {ent["aid"]}'
             if obj is not o or msg != m or id(listener) != key[2] or tuple(a) != tuple(args):
                 return f'called with {(obj, msg, listener, a)!r}'
-        NC.notify(o, m, *args)
+        R.run_library(lambda: NC.notify(o, m, *args))
         R.compare(expected, lambda key: regs.get((key[0], key[1])), check_args)
         if b:
             for k, e in list(b.entries.items()):
                 if e['once'] and any(c[0] == k for c in R.calls):
                     b.remove(k)
+                    R.spent_once.add(k)
+                    # observer, so that the defect is named where it happens
+                    if NC.registration_exists(o, m, by_id[k[2]]):
+                        R.violation('one-shot-still-registered-after-firing',
+                                    action_raised=R.raised)
 
     def exists_check():
         o, m, l = rng.choice(objs), rng.choice(msgs), rng.choice(listeners)
@@ -501,6 +554,8 @@ def run_notify(acc, rng, case):
         b = regs.get((id(o), m))
         exp = bool(b and (id(o), m, id(l)) in b.entries)
         acc.count('registry_exists_queries')
+        if got and not exp and (id(o), m, id(l)) in R.spent_once:
+            R.violation('one-shot-still-registered-after-firing')
         if bool(got) != exp:
             R.violation('registration_exists-differs', got=got, expected=exp)
 
@@ -524,9 +579,8 @@ def run_notify(acc, rng, case):
                     R.guarded('unregister', lambda: apply(('unregister', o, None, None)))
             elif r < 0.65 and len(keys) >= 2:
                 holder = rng.choice(keys)
-                same = [k for k in keys if k[:2] == holder[:2] and k != holder
-                        and not regs[k[:2]].entries[k]['once']]
-                if same and not regs[holder[:2]].entries[holder]['once']:
+                same = [k for k in keys if k[:2] == holder[:2] and k != holder]
+                if same:
                     # a listener that, while notified, unregisters a later /
                     # an earlier listener, itself, or the whole message
                     v = rng.random()
